@@ -55,10 +55,13 @@ def run(ctx):
                 metas.append((sub, base, text))
     # directed texts: an AS number touching a dot / equal to an address octet; a secret equal to the lower-cased form of a user reserved word
     directed = ["router bgp 65001.\n", "neighbor 10.65001.1.1 remote-as 0.65001\n", "ip route 64512.0.0.0 10.64512.0.1 AS 64512.\n", "peer 65001.2.3.4 65001\n", " description AS65001.seattle-core.\n",
-                "snmp-server community labcore RO\n", "username LabCore password labcore\n", "hostname LabCore seattle labcore\n", "enable password seattle-core\n"]
+                "snmp-server community labcore RO\n", "username LabCore password labcore\n", "hostname LabCore seattle labcore\n", "enable password seattle-core\n",
+                # digit-free lines into which an EARLIER stage writes digits that are a listed AS number: the first secret's pseudonym ends in 0, the
+                # pseudonym of the word "uniform" under salt "s" is 688565 (md5("s" + word)[:6] happens to be all digits)
+                "snmp-server community plainsecret RO\n", "interface uniform description none\n", "banner uniform;\n"]
     for sub in subsets:
         for ipflag in (["a"] if "a" not in sub else ["a", "u"]):
-            base = dict(salt="s", words=c12.WORDS + ["lab"], asnums=c12.ASNUMS + ["10", "65001"], pfx="-", nets="-", b4=8, b6=8, ipflag=ipflag, reserved=["LabCore", "Seattle-core"])
+            base = dict(salt="s", words=c12.WORDS + ["lab", "uniform"], asnums=c12.ASNUMS + ["10", "65001", "0", "688565"], pfx="-", nets="-", b4=8, b6=8, ipflag=ipflag, reserved=["LabCore", "Seattle-core"])
             flags = ("p" if "p" in sub else "") + (ipflag if "a" in sub else "")
             cases.append(textgen.pipe(directed, flags=flags, salt="s", words=base["words"] if "w" in sub else None, asnums=base["asnums"] if "n" in sub else None, reserved=base["reserved"]))
             metas.append((sub, base, directed))
